@@ -29,7 +29,8 @@ VOCAB = {
  "upgrade-sslcontext-tls": {"name": V("ssl", "@alias", "@fromname"), "attr": V("PROTOCOL_\\w+"), "kw": V("protocol"), "import": V(ANYIMPORT), "from": V("ssl")},
  "upgrade-sslcontext-minimum-version": {"name": V("ssl", "TLSVersion", "@alias", "@fromname"), "attr": V("SSLv2", "SSLv3", "TLSv1", "TLSv1_1", "TLSv1_2", "MINIMUM_SUPPORTED", "TLSVersion"), "import": V(ANYIMPORT), "from": V("ssl")},
  "limit-readline": {"const": V("5000000")},
- "timezone-aware-datetime": {"name": V("datetime", "timezone", "@alias", "@fromname"), "attr": V("utcnow", "utcfromtimestamp", "now", "fromtimestamp", "timezone", "utc", "datetime"), "kw": V("tz"), "import": V(ANYIMPORT), "from": V("datetime")},
+ # the callee keeps its binding (`dt.utcnow()` -> `dt.now(tz=...)`): no name may disappear, only the deprecated method names
+ "timezone-aware-datetime": {"removed": {"attr": V("utcnow", "utcfromtimestamp")}, "name": V("datetime", "timezone", "@alias", "@fromname"), "attr": V("utcnow", "utcfromtimestamp", "now", "fromtimestamp", "timezone", "utc", "datetime"), "kw": V("tz"), "import": V(ANYIMPORT), "from": V("datetime")},
 }
 def imported_names(src):
     al = set(); fr = set()
@@ -112,8 +113,9 @@ def plan(tier, seed):
             except Exception: s = None
             if s is None: continue
             # extra untouched material that must survive: a marker call with unique identifiers and literals
-            for shape, s1 in shapes(s):
-                if shape != "orig" and (not with_shapes or c != ("module" if tier == "quick" else c) or c not in ("module", "def")): continue
+            mixed = gen.mixed_imports(s) if c == "module" else None
+            for shape, s1 in shapes(s) + ([("mixed-import-bindings", mixed)] if mixed else []):
+                if shape not in ("orig", "mixed-import-bindings") and (not with_shapes or c != ("module" if tier == "quick" else c) or c not in ("module", "def")): continue
                 s2 = s1 + ("\n" if not s1.endswith("\n") else "") + "vf_marker_fn(vf_arg_one, 'vf literal', 4242, vf_kw=vf_arg_two)\n"
                 by[r["codemod"]].setdefault(hashlib.sha1(s2.encode()).hexdigest()[:12], (c + "/" + shape, s2))
     jobs = []
@@ -156,7 +158,9 @@ def judge(job, res):
             if kind in ("name", "attr") and (("@alias" in (voc.get("name").pattern if voc.get("name") else "") and val in al) or ("@fromname" in ((voc.get(kind) or voc.get("name")).pattern if (voc.get(kind) or voc.get("name")) else "") and val in fr)): return True
             return bool(rx and rx.match(val))
         removed = ta - tb; added = tb - ta
-        bad_removed = {k: n for k, n in removed.items() if not allowed(*k)}
+        if "removed" in voc:   # a stricter, separate vocabulary for what may disappear
+            bad_removed = {k: n for k, n in removed.items() if not (voc["removed"].get(k[0]) and voc["removed"][k[0]].match(k[1]))}
+        else: bad_removed = {k: n for k, n in removed.items() if not allowed(*k)}
         bad_added = {k: n for k, n in added.items() if not allowed(*k)}
         w = {"codemod": job["cid"], "before": src, "after": after}
         shape = (job.get("labels", {}).get(name) or "?/orig").split("/", 1)[1]
